@@ -377,8 +377,8 @@ def check_in(prop, tier, spec, seed, workdir, t0):
         e.pop("VERIF_JOURNAL", None)
         crashdir = os.path.join(ROOT, "checks", "testdata", "fuzz", name)
         shutil.rmtree(crashdir, ignore_errors=True)
-        cmd = ["go", "test", "-run", "^$", "-fuzz", "^%s$" % name, "-fuzztime", "%ds" % cfg["fuzztime"],
-               "-parallel", str(MAXPROCS), "-test.fuzzcachedir", os.path.join(workdir, "fuzzcache"), "./checks"]
+        cmd = ["go", "test", "./checks", "-run", "^$", "-fuzz", "^%s$" % name, "-fuzztime", "%ds" % cfg["fuzztime"],
+               "-parallel", str(MAXPROCS), "-test.fuzzcachedir", os.path.join(workdir, "fuzzcache")]
         try:
             p = subprocess.run(cmd, cwd=ROOT, env=e, stdout=subprocess.PIPE, stderr=subprocess.STDOUT, text=True,
                                errors="replace", timeout=cfg["fuzztime"] + 600)
